@@ -24,11 +24,11 @@ LEVEL_TEXT = (
     "between; the simulated network shows which socket carried which request and which settings reached the socket/TLS seams. Contexts differing by keyword-not-given vs a falsy but meaningful value (ssl.CERT_NONE, assert_hostname=False, retries=False/0, socket_options=[]) are part of the grid. The keyword x scheme x mode grid is enumerated."
 )
 LEVEL_NOTE = "trusted: the value table for known keywords (unknown keywords get generic values and must be rejected or separate); observation of settings limited to what reaches a seam (bind, socket options, timeouts, TLS wrap arguments)"
-N = {"quick": 1000, "thorough": 9000}
+N = {"quick": 1100, "thorough": 9000}
 BUDGET = {"quick": 45, "thorough": 300}
 RULE = "index k -> (keyword, scheme, supply mode, in-between event, URL respelling) by enumeration of the grid then seeded repetition. Non-trivial = the keyword was accepted; distinct = distinct (keyword, scheme, mode, event, respelling)."
 ASSUMPTIONS = ["a keyword that raises TypeError (at pool creation or at the first request, before any I/O) counts as rejected"]
-REQUIRED_PROBES = {"quick": ["separate_pools", "unset_vs_falsy", "via_proxy_manager", "redirect_to_other_host_followed", "defaults_around_override_ok", "headers_as_httpheaderdict", "rejected_keyword", "same_context_shared", "respelled_url_shared", "defaults_unchanged", "evicted_then_A", "seam:source_address", "seam:timeout", "seam:tls"], "thorough": ["separate_pools", "unset_vs_falsy", "via_proxy_manager", "redirect_to_other_host_followed", "defaults_around_override_ok", "headers_as_httpheaderdict", "rejected_keyword", "same_context_shared", "respelled_url_shared", "defaults_unchanged", "evicted_then_A", "seam:source_address", "seam:timeout", "seam:tls"]}
+REQUIRED_PROBES = {"quick": ["separate_pools", "unset_vs_falsy", "via_proxy_manager", "redirect_to_other_host_followed", "defaults_around_override_ok", "headers_as_httpheaderdict", "retry_objects_one_field_apart", "default_removed_per_request", "rejected_keyword", "same_context_shared", "respelled_url_shared", "defaults_unchanged", "evicted_then_A", "seam:source_address", "seam:timeout", "seam:tls"], "thorough": ["separate_pools", "unset_vs_falsy", "via_proxy_manager", "redirect_to_other_host_followed", "defaults_around_override_ok", "headers_as_httpheaderdict", "retry_objects_one_field_apart", "default_removed_per_request", "rejected_keyword", "same_context_shared", "respelled_url_shared", "defaults_unchanged", "evicted_then_A", "seam:source_address", "seam:timeout", "seam:tls"]}
 
 
 def keywords():
@@ -93,6 +93,15 @@ def values(kw: str):
     return (lambda: "value-A", lambda: "value-B")
 
 
+RETRY_FIELDS = {
+    "total": (3, 4), "connect": (1, 2), "read": (1, 2), "redirect": (1, 2), "status": (1, 2), "other": (1, 2),
+    "allowed_methods": (["GET"], ["GET", "POST"]), "status_forcelist": ([500], [503]), "backoff_factor": (0.1, 0.2), "backoff_max": (60, 61),
+    "raise_on_redirect": (True, False), "raise_on_status": (True, False), "respect_retry_after_header": (True, False),
+    "remove_headers_on_redirect": (["Authorization"], []), "backoff_jitter": (0.0, 0.5),
+}
+REMOVABLE = ["source_address", "socket_options", "timeout", "cert_reqs", "server_hostname"]
+
+
 class _Unset:
     def __repr__(self):
         return "<not given>"
@@ -127,6 +136,10 @@ def cases(seed, k, tier):
     grid += [(kw, scheme, mode, ev, i) for kw in FALSY_KWS if kw in ks for i in range(len(falsy_values(kw))) for scheme in ("http", "https") for mode in MODES for ev in EVENTS]
     # the same keyword given in another container type (default headers as an HTTPHeaderDict instead of a dict)
     grid += [("headers", scheme, mode, ev, "hhd") for scheme in ("http", "https") for mode in MODES + ["proxy_pool_kwargs"] for ev in EVENTS if not (mode == "proxy_pool_kwargs" and scheme == "https")]
+    # two Retry objects that differ in exactly one constructor field (Retry is part of the pool's identity as an object)
+    grid += [("retries", "http", mode, "none", "retry:" + f) for f in RETRY_FIELDS for mode in MODES]
+    # a constructor default removed again for one request (pool_kwargs={kw: None}): the pool must be built without it
+    grid += [(kw, scheme, "ctor_default_A", ev, "remove") for kw in REMOVABLE for scheme in ("http", "https") for ev in ("none", "evict") if not (kw in ("cert_reqs", "server_hostname") and scheme == "http")]
     rng = rng_for(seed, ID, k)
     if k < len(grid):
         kw, scheme, mode, ev, fi = grid[k]
@@ -145,6 +158,19 @@ def run(sc: dict) -> Result:
     urllib3 = H.u3()
     kw, scheme, mode, ev = sc["kw"], sc["scheme"], sc["mode"], sc["event"]
     va, vb = values(kw)
+    fl = sc.get("flavour") or ""
+    if fl.startswith("retry:"):
+        from urllib3.util.retry import Retry
+
+        f_ = fl[6:]
+        x, y = RETRY_FIELDS[f_]
+        va, vb = (lambda: Retry(**{f_: x})), (lambda: Retry(**{f_: y}))
+        res.probes["retry_objects_one_field_apart"] += 1
+    elif fl == "remove":
+        vb = lambda: None  # noqa: E731
+        if kw == "cert_reqs":
+            va = lambda: "CERT_NONE"  # noqa: E731
+        res.probes["default_removed_per_request"] += 1
     if sc.get("flavour") == "hhd":
         from urllib3._collections import HTTPHeaderDict
 
@@ -154,7 +180,8 @@ def run(sc: dict) -> Result:
         va, vb = (lambda: UNSET), falsy_values(kw)[sc["falsy"]]
         res.probes["unset_vs_falsy"] += 1
     # (with a constructor default, "not given" on the request means that default: the unset side must be the constructor's)
-    if sc.get("flip") and not (sc.get("falsy") is not None and mode == "ctor_default_A"):
+    # (likewise a removal -- pool_kwargs={kw: None} -- only means "removed" on the request side)
+    if sc.get("flip") and not (sc.get("falsy") is not None and mode == "ctor_default_A") and sc.get("flavour") != "remove":
         va, vb = vb, va
     w = W.World({})
 
@@ -309,6 +336,17 @@ def check_seams(kw, A, B_, w, res):
         if lab not in ("A", "B"):
             continue
         want = A if lab == "A" else B_
+        if want is None and kw in REMOVABLE:
+            want = UNSET  # removed again: as if never given
+        if want is UNSET and kw == "source_address":
+            if s.bound is not None:
+                res.bad("setting_not_applied", f"socket {s.sid} served context {lab} (no source_address) but was bound to {s.bound}")
+            continue
+        if want is UNSET and kw == "timeout":
+            tos = [t for op, t in s.timeouts_at_io if op == "connect"]
+            if tos and tos[0] is not None:
+                res.bad("setting_not_applied", f"socket {s.sid} served context {lab} (no timeout) but connected with timeout {tos[0]}")
+            continue
         if want is UNSET:
             if kw == "socket_options":
                 from urllib3.connection import HTTPConnection
@@ -335,6 +373,12 @@ def check_seams(kw, A, B_, w, res):
         if lab not in ("A", "B"):
             continue
         want = A if lab == "A" else B_
+        if want is None and kw in REMOVABLE:
+            want = UNSET
+        if want is UNSET and kw == "server_hostname":
+            if t[2] not in ("h.test", "H.Test".lower()):
+                res.bad("setting_not_applied", f"TLS wrap on socket {t[1]} (context {lab}, no server_hostname) used {t[2]!r}")
+            continue
         if want is UNSET:
             want = {"cert_reqs": "CERT_REQUIRED"}.get(kw, UNSET)
         elif kw == "cert_reqs" and not isinstance(want, str):
